@@ -1,7 +1,7 @@
 """C12 -- penalty connection matrices.
 
-Python layer under contract here: calc_kt_kr (symmetry, degree-1 homogeneity), TStiff2D.calc_k0 (placement, interface lines,
-penalty constants), PanelAssembly.get_k0_conn (dispatch, placement, survival under symmetrisation).  Connection kernels (15 functions, real .pyx text): c12_kernels.
+Python layer under contract here: calc_kt_kr (symmetry, degree-1 homogeneity), TStiff2D.calc_k0 and BladeStiff2D.calc_k0 (placement, interface lines,
+penalty constants, edge flags of both sides), PanelAssembly.get_k0_conn (dispatch, placement, survival under symmetrisation).  Connection kernels (15 functions, real .pyx text): c12_kernels.
 """
 import sys
 from ..core import run_check
@@ -14,6 +14,8 @@ def body(led):
     led.trust('cmverif symbolic executor, normaliser')
     py_stiffeners.check_kt_kr(led)
     py_stiffeners.check_tstiff2d(led)
+    # the blade stiffener joins its flange to the skin with the same penalty blocks (fkCss / fkCsf / fkCff of its own model module)
+    py_stiffeners.check_bladestiff2d(led, only=('k0',), base_definition=False)
     from . import c12_conn
     c12_conn.body(led)
     # the connection matrix reaches the assembly stiffness, tangent and internal force on every route (finalize True / False)
